@@ -17,8 +17,9 @@ CONSTANTS Families,   \* subset of {"normal", "mixnormal", "bernoulli", "weibull
           Outcomes,   \* Bernoulli: subset of {"y0", "y1"}
           Probs       \* Bernoulli: subset of {"interior", "sat0", "sat1"}
 VARIABLES fam, cens, pos, shp, src, yb, pb,
-          term, kind      \* the expected negative log-density of the case, as a term, and its class (shipped to the driver)
-vars == <<fam, cens, pos, shp, src, yb, pb, term, kind>>
+          term, kind,     \* the expected negative log-density of the case, as a term, and its class (shipped to the driver)
+          jac             \* its derivative with respect to the value, as a term (Gaussian families; <<"none">> elsewhere)
+vars == <<fam, cens, pos, shp, src, yb, pb, term, kind, jac>>
 Init0 == /\ fam \in Families /\ cens \in Censorings /\ pos \in Positions /\ shp \in Shapes /\ src \in Sources
         /\ yb \in Outcomes /\ pb \in Probs
         \* canonical values for the dimensions a family does not use
@@ -60,7 +61,31 @@ WeibullNll == CASE WeibullKind = "zero" -> Num(0, 1)                          \*
 Kind == IF fam = "weibull" THEN WeibullKind ELSE IF fam = "bernoulli" /\ pb # "interior" THEN "zero" ELSE "formula"
 Term == CASE fam \in {"normal", "mixnormal"} -> NormalNll [] fam = "bernoulli" -> BernoulliNll [] fam = "weibull" -> WeibullNll
 
-Init == Init0 /\ term = Term /\ kind = Kind
+
+\* Symbolic differentiation of a term with respect to a variable (beyond the listed properties: the families also hand out
+\* the derivative of the negative log-density with respect to the value; the driver compares it with D(Term, "x") and
+\* cross-checks D itself against a central difference of the evaluated term).
+RECURSIVE D(_, _)
+D(t, v) == CASE t[1] = "num" -> Num(0, 1)
+             [] t[1] = "var" -> IF t[2] = v THEN Num(1, 1) ELSE Num(0, 1)
+             [] t[1] = "add" -> Add(D(t[2], v), D(t[3], v))
+             [] t[1] = "sub" -> Sub(D(t[2], v), D(t[3], v))
+             [] t[1] = "mul" -> Add(Mul(D(t[2], v), t[3]), Mul(t[2], D(t[3], v)))
+             [] t[1] = "div" -> Div(Sub(Mul(D(t[2], v), t[3]), Mul(t[2], D(t[3], v))), Sq(t[3]))
+             [] t[1] = "neg" -> Neg(D(t[2], v))
+             [] t[1] = "log" -> Div(D(t[2], v), t[2])
+             [] t[1] = "exp" -> Mul(t, D(t[2], v))
+             [] t[1] = "sq" -> Mul(Mul(Num(2, 1), t[2]), D(t[2], v))
+             [] t[1] = "pow" -> Mul(t, Add(Mul(D(t[3], v), Log(t[2])), Div(Mul(t[3], D(t[2], v)), t[2])))
+Jac == IF fam \in {"normal", "mixnormal"} THEN D(Term, "x") ELSE <<"none">>
+\* a derivative never mentions a variable the term does not mention
+RECURSIVE VarsOf(_)
+VarsOf(t) == CASE t[1] = "num" -> {} [] t[1] = "var" -> {t[2]} [] t[1] = "none" -> {}
+               [] t[1] \in {"neg", "log", "exp", "sq"} -> VarsOf(t[2])
+               [] OTHER -> VarsOf(t[2]) \cup VarsOf(t[3])
+DerivativeClosed == VarsOf(jac) \subseteq VarsOf(term)
+
+Init == Init0 /\ term = Term /\ kind = Kind /\ jac = Jac
 Next == UNCHANGED vars
 Spec == Init /\ [][Next]_vars
 
